@@ -130,6 +130,17 @@ func main() {
 	}
 	for _, p := range pkgs {
 		rel := strings.TrimPrefix(p.PkgPath, modPath+"/")
+		// every package (rewritten or not) gets a file that exposes the addresses of its package-level
+		// variables: the harness restores them before every execution, so that executions are
+		// independent of each other even when a change under check keeps state in package scope
+		if gf := globalsFile(p); gf != nil {
+			dst := filepath.Join(*out, "src", rel, "zz_verif_globals.go")
+			os.MkdirAll(filepath.Dir(dst), 0o755)
+			if err := os.WriteFile(dst, gf, 0o644); err != nil {
+				die("%v", err)
+			}
+			overlay[filepath.Join(*repo, rel, "zz_verif_globals.go")] = dst
+		}
 		globals := mutatedGlobals(p)
 		if optional[p.PkgPath] {
 			why := needsRewrite(p, globals, "")
@@ -678,6 +689,41 @@ func mutatedGlobals(p *packages.Package) map[*types.Var]bool {
 		}
 	}
 	return out
+}
+
+// globalsFile renders VerifGlobals() for a package: names and addresses of its package-level variables.
+func globalsFile(p *packages.Package) []byte {
+	var vars []string
+	for i, f := range p.Syntax {
+		if strings.HasSuffix(p.CompiledGoFiles[i], "_test.go") || strings.HasPrefix(filepath.Base(p.CompiledGoFiles[i]), "zz_verif_") {
+			continue
+		}
+		for _, d := range f.Decls {
+			gd, ok := d.(*ast.GenDecl)
+			if !ok || gd.Tok != token.VAR {
+				continue
+			}
+			for _, sp := range gd.Specs {
+				for _, id := range sp.(*ast.ValueSpec).Names {
+					if id.Name != "_" {
+						vars = append(vars, id.Name)
+					}
+				}
+			}
+		}
+	}
+	sort.Strings(vars)
+	var b bytes.Buffer
+	fmt.Fprintf(&b, "// Code generated by /verif/mcgen. DO NOT EDIT.\n\npackage %s\n\n// VerifGlobals returns the names and addresses of all package-level variables.\nfunc VerifGlobals() ([]string, []interface{}) {\n\treturn []string{", p.Name)
+	for _, v := range vars {
+		fmt.Fprintf(&b, "%q, ", v)
+	}
+	b.WriteString("}, []interface{}{")
+	for _, v := range vars {
+		fmt.Fprintf(&b, "&%s, ", v)
+	}
+	b.WriteString("}\n}\n")
+	return b.Bytes()
 }
 
 // fileHoldsState: the file imports a synchronisation package, uses goroutines or channels, or
